@@ -140,7 +140,12 @@ class Workspace:
         base = os.path.join(outdir, u["unit"])
         ll = base + ".ll"
         flags = list(u["flags"]) + config_flags(cfg) + list(extra)
-        if shape == "O0":
+        if shape == "raw":
+            cmd = [CLANG] + flags + ["-O0", "-g", "-fno-discard-value-names", "-S", "-emit-llvm", u["file"], "-o", ll, "-w"]
+            p = subprocess.run(cmd, capture_output=True, text=True)
+            if p.returncode != 0:
+                return (u["unit"], None, p.stderr)
+        elif shape == "O0":
             cmd = [CLANG] + flags + ["-O0", "-Xclang", "-disable-O0-optnone", "-g",
                                      "-fno-discard-value-names", "-S", "-emit-llvm",
                                      u["file"], "-o", base + ".raw.ll", "-w"]
